@@ -233,15 +233,21 @@ impl ConstructorFactory {
                     rest,
                     span,
                 )?;
+                // list the missing variants in declaration order (the iteration
+                // order of a `HashSet` differs from run to run)
                 Pattern::from_pat_stack(
                     handler,
                     PatStack::from(
-                        all_variants
-                            .difference(&variant_tracker)
-                            .map(|x| {
+                        enum_variants
+                            .iter()
+                            .map(|variant| variant.name.to_string())
+                            .filter(|name| {
+                                all_variants.contains(name) && !variant_tracker.contains(name)
+                            })
+                            .map(|name| {
                                 Pattern::Enum(EnumPattern {
                                     enum_name: enum_name.to_string(),
-                                    variant_name: x.clone(),
+                                    variant_name: name,
                                     value: Box::new(Pattern::Wildcard),
                                 })
                             })
